@@ -5,6 +5,8 @@ import (
 	"github.com/alttpo/snes/emulator/cpu65c816"
 	"github.com/alttpo/snes/emulator/cpualt"
 	"github.com/alttpo/snes/emulator/memory"
+
+	"verif/spec/w65c816"
 )
 
 // FlatReader / FlatWriter back every segment of a cpualt.Bus with one 16 MiB array.
@@ -75,4 +77,148 @@ func NewFlatAlt(ram *[1 << 24]byte) *cpualt.CPU {
 	c.Bus.AttachWriter(0, 0xFFFFFF, FlatWriter(ram))
 	c.Interrupt = 1
 	return c
+}
+
+// ---- C02: the two interpreters are observationally equivalent, step for step ----
+// Both real Step functions run from the same symbolic state (flags in {0,1}, any E / D / widths), each
+// on its own flat RAM with equal contents. Equality of every register, flag, status, cycle count and of
+// the whole memory afterwards is the inductive lockstep invariant.
+
+//@ lemma StepEquiv property C02
+//@   harness flatboth a=a b=b ram1=ram1 ram2=ram2 op=op
+//@   nosafety
+//@   ensures n1 == n2 && s1 == s2
+//@   ensures a.AllCycles == b.AllCycles
+//@   ensures a.Cycles == b.Cycles
+//@   ensures a.Stopped == b.Stopped
+//@   ensures a.PRK == b.PRK
+//@   ensures a.PPC == b.PPC
+//@   ensures a.WDM == b.WDM
+//@   ensures a.PC == b.PC
+//@   ensures a.SP == b.SP
+//@   ensures a.RA == b.RA
+//@   ensures a.RX == b.RX
+//@   ensures a.RY == b.RY
+//@   ensures a.RAh == b.RAh
+//@   ensures a.RAl == b.RAl
+//@   ensures a.RXl == b.RXl
+//@   ensures a.RYl == b.RYl
+//@   ensures a.RDBR == b.RDBR
+//@   ensures a.RD == b.RD
+//@   ensures a.RK == b.RK
+//@   ensures a.N == b.N
+//@   ensures a.V == b.V
+//@   ensures a.M == b.M
+//@   ensures a.X == b.X
+//@   ensures a.D == b.D
+//@   ensures a.I == b.I
+//@   ensures a.Z == b.Z
+//@   ensures a.C == b.C
+//@   ensures a.B == b.B
+//@   ensures a.E == b.E
+//@   ensures a.Interrupt == b.Interrupt
+//@   ensures all(k, uint32, k < 0x1000000 ==> ram1[k] == ram2[k])
+
+func StepEquiv(a *cpu65c816.CPU, b *cpualt.CPU, ram1, ram2 *[1 << 24]byte, op byte) (n1 int, s1 bool, n2 int, s2 bool) {
+	n1, s1 = a.Step()
+	n2, s2 = b.Step()
+	return
+}
+
+// ---- C01: each interpreter refines the WDC reference model (spec/w65c816) in native mode ----
+
+// Abs65 is the abstraction function: the architectural state an interpreter state denotes.
+func Abs65(c *cpu65c816.CPU) w65c816.State {
+	var s w65c816.State
+	if c.M == 1 {
+		s.A = uint16(c.RAh)<<8 | uint16(c.RAl)
+	} else {
+		s.A = c.RA
+	}
+	if c.X == 1 {
+		s.X = uint16(c.RXl)
+		s.Y = uint16(c.RYl)
+	} else {
+		s.X = c.RX
+		s.Y = c.RY
+	}
+	s.S, s.D, s.PC = c.SP, c.RD, c.PC
+	s.DBR, s.K, s.E = c.RDBR, c.RK, c.E
+	s.P = c.C | c.Z<<1 | c.I<<2 | c.D<<3 | c.X<<4 | c.M<<5 | c.V<<6 | c.N<<7
+	return s
+}
+
+// AbsAlt is the abstraction function: the architectural state an interpreter state denotes.
+func AbsAlt(c *cpualt.CPU) w65c816.State {
+	var s w65c816.State
+	if c.M == 1 {
+		s.A = uint16(c.RAh)<<8 | uint16(c.RAl)
+	} else {
+		s.A = c.RA
+	}
+	if c.X == 1 {
+		s.X = uint16(c.RXl)
+		s.Y = uint16(c.RYl)
+	} else {
+		s.X = c.RX
+		s.Y = c.RY
+	}
+	s.S, s.D, s.PC = c.SP, c.RD, c.PC
+	s.DBR, s.K, s.E = c.RDBR, c.RK, c.E
+	s.P = c.C | c.Z<<1 | c.I<<2 | c.D<<3 | c.X<<4 | c.M<<5 | c.V<<6 | c.N<<7
+	return s
+}
+
+//@ lemma StepRefines65 property C01
+//@   harness flat65 cpu=c ram=ram ram2=ram2 op=op
+//@   nosafety
+//@   requires c.E == 0 && !has(c.OnPC, uint32(c.RK)<<16|uint32(c.PC))
+//@   requires c.D == 0 || !w65c816.IsDecimalArith(op)
+//@   ensures impl.A == spec.A
+//@   ensures impl.X == spec.X
+//@   ensures impl.Y == spec.Y
+//@   ensures impl.S == spec.S
+//@   ensures impl.D == spec.D
+//@   ensures impl.PC == spec.PC
+//@   ensures impl.DBR == spec.DBR
+//@   ensures impl.K == spec.K
+//@   ensures impl.P == spec.P
+//@   ensures impl.E == spec.E
+//@   ensures all(k, uint32, k < 0x1000000 ==> ram[k] == ram2[k])
+//@   ensures c.N <= 1 && c.V <= 1 && c.M <= 1 && c.X <= 1 && c.D <= 1 && c.I <= 1 && c.Z <= 1 && c.C <= 1 && c.E <= 1
+//@   ensures c.Interrupt != 2 && c.Interrupt != 3
+
+func StepRefines65(c *cpu65c816.CPU, ram, ram2 *[1 << 24]byte, op byte) (impl, spec w65c816.State) {
+	spec = Abs65(c)
+	c.Step()
+	w65c816.Step(&spec, ram2, op)
+	impl = Abs65(c)
+	return
+}
+
+//@ lemma StepRefinesAlt property C01
+//@   harness flatalt cpu=c ram=ram ram2=ram2 op=op
+//@   nosafety
+//@   requires c.E == 0 && !has(c.OnPC, uint32(c.RK)<<16|uint32(c.PC))
+//@   requires c.D == 0 || !w65c816.IsDecimalArith(op)
+//@   ensures impl.A == spec.A
+//@   ensures impl.X == spec.X
+//@   ensures impl.Y == spec.Y
+//@   ensures impl.S == spec.S
+//@   ensures impl.D == spec.D
+//@   ensures impl.PC == spec.PC
+//@   ensures impl.DBR == spec.DBR
+//@   ensures impl.K == spec.K
+//@   ensures impl.P == spec.P
+//@   ensures impl.E == spec.E
+//@   ensures all(k, uint32, k < 0x1000000 ==> ram[k] == ram2[k])
+//@   ensures c.N <= 1 && c.V <= 1 && c.M <= 1 && c.X <= 1 && c.D <= 1 && c.I <= 1 && c.Z <= 1 && c.C <= 1 && c.E <= 1
+//@   ensures c.Interrupt != 2 && c.Interrupt != 3
+
+func StepRefinesAlt(c *cpualt.CPU, ram, ram2 *[1 << 24]byte, op byte) (impl, spec w65c816.State) {
+	spec = AbsAlt(c)
+	c.Step()
+	w65c816.Step(&spec, ram2, op)
+	impl = AbsAlt(c)
+	return
 }
